@@ -8,6 +8,7 @@
 package c20
 
 import (
+	"math/rand"
 	"fmt"
 	"math"
 	"runtime"
@@ -370,6 +371,12 @@ func RunCase(t *testing.T, c *Case, work, sched *choice.Source, st *Stats) (fs [
 			return
 		}
 	}
+	if len(fs) == 0 && work.Chance(1, 4) {
+		if f := historyCheck(t, work, st, workers); f != nil {
+			fs = append(fs, *f)
+			return
+		}
+	}
 	if st.EarlyStops > 0 {
 		st.probe("early stop fired")
 	}
@@ -386,4 +393,95 @@ func RunCase(t *testing.T, c *Case, work, sched *choice.Source, st *Stats) (fs [
 		st.probe("LogFunc called")
 	}
 	return
+}
+
+// historyCheck: a render is a function of (scene, settings, random stream).  A real
+// scene B is rendered once from a clean slate and once more right after a
+// different scene A (other light, other materials) was rendered in the same
+// process, both times with the same seed of the global generator and the same
+// (FIFO) schedule; the two images of B must be identical bit for bit.  Anything
+// the renderer keeps between renders (pooled per-worker state, caches keyed too
+// coarsely) shows up as a difference - whichever worker picks the stale state up.
+func historyCheck(t *testing.T, work *choice.Source, st *Stats, workers int) *Finding {
+	w, h := 2+work.Intn(5), 2+work.Intn(5)
+	kind := work.Intn(3) // 0 recursive, 1 bidirectional, 2 ray caster
+	samples := 1 + work.Intn(6)
+	depth := 1 + work.Intn(3)
+	seed := int64(work.U64() >> 1)
+	emA, emB := 3+20*work.Float(), 3+20*work.Float()
+	radA, radB := 0.3+work.Float(), 0.3+work.Float()
+	cam := render3d.NewCameraAt(model3d.XYZ(0.3, -4, 0.5), model3d.XYZ(0, 0, 0), 0.9)
+	mkScene := func(em, rad float64, alt bool) (render3d.Object, render3d.AreaLight, []*render3d.PointLight) {
+		light := render3d.NewSphereAreaLight(&model3d.Sphere{Center: model3d.XYZ(0.5, -1, 3), Radius: rad}, render3d.NewColor(em))
+		var mat render3d.Material = &render3d.LambertMaterial{DiffuseColor: render3d.NewColorRGB(0.8, 0.3, 0.2)}
+		if alt {
+			mat = &render3d.PhongMaterial{Alpha: 5, SpecularColor: render3d.NewColor(0.4), DiffuseColor: render3d.NewColorRGB(0.1, 0.5, 0.9)}
+		}
+		obj := render3d.JoinedObject{
+			&render3d.ColliderObject{Collider: &model3d.Sphere{Center: model3d.XYZ(0, 0, 0), Radius: 1}, Material: mat},
+			&render3d.ColliderObject{Collider: &model3d.Rect{MinVal: model3d.XYZ(-3, -3, -1.2), MaxVal: model3d.XYZ(3, 3, -1)},
+				Material: &render3d.LambertMaterial{DiffuseColor: render3d.NewColor(0.6)}},
+			light,
+		}
+		return obj, light, []*render3d.PointLight{{Origin: model3d.XYZ(2, -3, 4), Color: render3d.NewColor(em / 10)}}
+	}
+	render := func(em, rad float64, alt bool) (*render3d.Image, *Finding) {
+		obj, light, points := mkScene(em, rad, alt)
+		img := render3d.NewImage(w, h)
+		rand.Seed(seed)
+		res := simsched.Run(t, simsched.Config{Src: choice.Replay(nil), Knobs: map[string]int{"render.workers": workers}}, func() {
+			switch kind {
+			case 0:
+				(&render3d.RecursiveRayTracer{Camera: cam, Lights: points, MaxDepth: depth, NumSamples: samples}).Render(img, obj)
+			case 1:
+				(&render3d.BidirPathTracer{Camera: cam, Light: light, MaxDepth: depth + 1, NumSamples: samples}).Render(img, obj)
+			default:
+				(&render3d.RayCaster{Camera: cam, Lights: points}).Render(img, obj)
+			}
+		})
+		st.Steps += res.Steps
+		if res.Deadlock || res.Livelock || res.Panic != nil {
+			return nil, &Finding{"history|render-failed", fmt.Sprintf("history check: render did not complete (deadlock=%v livelock=%v panic=%v)", res.Deadlock, res.Livelock, res.Panic)}
+		}
+		return img, nil
+	}
+	// a clean slate: whatever sync.Pools hold is dropped by two collections
+	runtime.GC()
+	runtime.GC()
+	first, f := render(emB, radB, false)
+	if f != nil {
+		return f
+	}
+	if _, f := render(emA, radA, true); f != nil {
+		return f
+	}
+	second, f := render(emB, radB, false)
+	if f != nil {
+		return f
+	}
+	// ... and once more with scene A as the very first render after a clean slate
+	// (state that is created once and never refreshed)
+	runtime.GC()
+	runtime.GC()
+	if _, f := render(emA, radA, true); f != nil {
+		return f
+	}
+	third, f := render(emB, radB, false)
+	if f != nil {
+		return f
+	}
+	st.probe("history check (scene B, scene A, scene B again)")
+	for i := range first.Data {
+		a, b := first.Data[i], second.Data[i]
+		if c := third.Data[i]; a == b || a != a {
+			b = c
+		}
+		same := func(x, y float64) bool { return x == y || x != x && y != y }
+		if !(same(a.X, b.X) && same(a.Y, b.Y) && same(a.Z, b.Z)) {
+			names := []string{"RecursiveRayTracer", "BidirPathTracer", "RayCaster"}
+			return &Finding{"history|" + names[kind], fmt.Sprintf("%s %dx%d workers=%d samples=%d depth=%d: pixel %d of a scene is %v when rendered from a clean slate but %v when the same scene is rendered (same seed, same schedule) after another scene with a different light (emission %.3g/radius %.3g instead of %.3g/%.3g) - the renderer keeps state between renders",
+				names[kind], w, h, workers, samples, depth, i, a, b, emA, radA, emB, radB)}
+		}
+	}
+	return nil
 }
